@@ -112,6 +112,8 @@ class Recorder:
                 sub = bad
             elif k == "q":
                 sub = self._node_q(expr, c, vec, fr, children, flat)
+            elif c == "cplx":
+                sub = "BAD:expression collector returned a non-real number (complex infinity from SymPy)"
             else:
                 sub = self._node_e(expr, c, vec, fr, children)
         if depth == 0:
